@@ -776,6 +776,28 @@ func build(tier string) []item {
 			}
 		}
 	}
+	// nesting well below the documented limit, with a sibling at every level (a join, a second FROM item, a conjunct, a
+	// set-operation arm): an operation that reaches a nested query along two paths - through a field and through a copy
+	// of it - takes 2^depth steps, which at depth 40 is a hang
+	for name, ctx := range map[string]string{
+		"derived-join":       "SELECT a FROM (%s) x JOIN t ON x.a = t.a",
+		"derived-list-join":  "SELECT a FROM (%s) x, u JOIN t ON u.a = t.a",
+		"join-derived-right": "SELECT a FROM t JOIN (%s) y ON t.a = y.a",
+		"in-subquery":        "SELECT a FROM t WHERE a IN (%s) AND b = 1",
+		"scalar":             "SELECT (%s) AS s, b FROM t",
+		"cte":                "WITH c AS (%s) SELECT a FROM c JOIN t ON c.a = t.a",
+		"union-left":         "SELECT a FROM (%s) x UNION SELECT a FROM t",
+		"exists":             "SELECT a FROM t WHERE EXISTS (%s) OR b = 2",
+		"case-in":            "SELECT CASE WHEN a IN (%s) THEN 1 ELSE 2 END FROM t",
+	} {
+		for _, d := range []int{12, 24, 40} {
+			q := "SELECT a FROM t0"
+			for i := 0; i < d; i++ {
+				q = strings.Replace(ctx, "%s", q, 1)
+			}
+			add(item{Kind: "text", Text: q, Origin: "nested-with-siblings:" + name})
+		}
+	}
 	n := 20000
 	if tier == "thorough" {
 		n = 60000
